@@ -378,15 +378,23 @@ fn hmc_strategy() -> BoxedStrategy<HmcCase> {
     ))
 }
 
-fn hmc_generic<B: burn::tensor::backend::AutodiffBackend>(c: &HmcCase, cov: &mut Cov) -> CheckResult {
+fn hmc_generic<T, B>(c: &HmcCase, cov: &mut Cov) -> CheckResult
+where
+    T: num_traits::Float + burn::tensor::ElementConversion + burn::tensor::Element + rand_distr::uniform::SampleUniform + num_traits::FromPrimitive,
+    B: burn::tensor::backend::AutodiffBackend,
+    rand_distr::StandardNormal: rand::distr::Distribution<T>,
+    rand_distr::StandardUniform: rand_distr::Distribution<T>,
+{
     let dim = c.spec.dim();
-    let eps = c.eps_frac.0 * c.spec.min_scale();
+    let eps = T::from_f64(c.eps_frac.0 * c.spec.min_scale()).unwrap();
+    let narrow = std::mem::size_of::<T>() == 4;
     let total = c.a + c.b + c.d;
     let mut rng = Prng::new(c.data_seed);
     let inits: Vec<Vec<f64>> = (0..c.chains).map(|_| c.spec.interior_point(&mut rng)).collect();
+    let inits_t: Vec<Vec<T>> = inits.iter().map(|r| r.iter().map(|v| T::from_f64(*v).unwrap()).collect()).collect();
     let momenta: Vec<Vec<f64>> = (0..total).map(|_| (0..c.chains * dim).map(|_| rng.normal()).collect()).collect();
     let uniforms: Vec<Vec<f64>> = (0..total).map(|_| (0..c.chains).map(|_| rng.unif()).collect()).collect();
-    let build = || HMC::<f64, B, HTarget>::new(HTarget::new(c.spec.clone()), inits.clone(), eps, c.n_leapfrog).set_seed(c.data_seed);
+    let build = || HMC::<T, B, HTarget>::new(HTarget::new(c.spec.clone()), inits_t.clone(), eps, c.n_leapfrog).set_seed(c.data_seed);
     let arm = |from: usize, to: usize| {
         verif::hmc_clear_overrides();
         for t in from..to {
@@ -438,7 +446,7 @@ fn hmc_generic<B: burn::tensor::backend::AutodiffBackend>(c: &HmcCase, cov: &mut
     if !trace1.is_empty() {
         let flat: Vec<f64> = inits.iter().flatten().cloned().collect();
         let start = &trace1[0].positions_before;
-        let tol = if std::any::TypeId::of::<B>() == std::any::TypeId::of::<B32>() { 1e-6 } else { 0.0 };
+        let tol = if narrow || std::any::TypeId::of::<B>() == std::any::TypeId::of::<B32>() { 1e-6 } else { 0.0 };
         for i in 0..flat.len() {
             ensure!((start[i] - flat[i]).abs() <= tol * (1.0 + flat[i].abs()), "run-chain-order", "HMC: row order of the initial positions is not preserved");
         }
@@ -486,6 +494,9 @@ fn hmc_generic<B: burn::tensor::backend::AutodiffBackend>(c: &HmcCase, cov: &mut
         }
     }
     cov.class(if c.f64_backend { "NdArray<f64>" } else { "NdArray<f32>" });
+    if narrow {
+        cov.class("T=f32-on-f64-backend");
+    }
     if c.n_leapfrog == 0 {
         cov.class("L=0");
     }
@@ -499,10 +510,14 @@ fn hmc_generic<B: burn::tensor::backend::AutodiffBackend>(c: &HmcCase, cov: &mut
 }
 
 fn check_hmc(c: &HmcCase, cov: &mut Cov) -> CheckResult {
-    if c.f64_backend {
-        hmc_generic::<B64>(c, cov)
+    // (the sampler's scalar type T is independent of the backend's float: T = f32 on
+    // NdArray<f64> must still return the backend's own states, bit for bit)
+    if c.f64_backend && c.data_seed % 4 == 0 {
+        hmc_generic::<f32, B64>(c, cov)
+    } else if c.f64_backend {
+        hmc_generic::<f64, B64>(c, cov)
     } else {
-        hmc_generic::<B32>(c, cov)
+        hmc_generic::<f64, B32>(c, cov)
     }
 }
 
@@ -585,6 +600,49 @@ fn check_nuts(c: &NutsCase, cov: &mut Cov) -> CheckResult {
     let pos = to_vec(&ch.position);
     for j in 0..dim {
         ensure!(pos[j].to_bits() == v[(n2 - 1) * dim + j].to_bits(), "run-final-state", "NUTS chain is left at a state different from the last returned row");
+    }
+    // a second call on the same chain counts its burn-in from the call, not from construction
+    {
+        let (m2, d2) = (c.c2 + 1, c.d);
+        let before = pos.clone();
+        verif::nuts_trace_start();
+        let r = no_panic(|| ch.run(m2, d2));
+        let trace2 = verif::nuts_trace_take();
+        let out2 = r.map_err(|m| Fail::new("run-panic", format!("second NUTSChain::run({m2},{d2}) panicked: {m}")))?;
+        if target.exhausted() {
+            cov.class("evaluation-budget-exhausted-skip");
+            return Ok(());
+        }
+        ensure!(out2.dims() == [m2, dim], "run-shape", "second NUTSChain::run({m2},{d2}) shape {:?}", out2.dims());
+        ensure!(
+            trace2.len() == m2 + d2 - 1,
+            "run-transition-count second-call",
+            "a second NUTSChain::run({m2},{d2}) on a chain that had made {} transitions performed {} transitions, expected n_collect + n_discard - 1 = {}",
+            n2 + c.d - 1,
+            trace2.len(),
+            m2 + d2 - 1
+        );
+        let v2 = to_vec(&out2);
+        for k in 0..m2 {
+            let t = d2 + k;
+            let want: &Vec<f64> = if t == 0 { &before } else { &trace2[t - 1].position_after };
+            for j in 0..dim {
+                ensure!(
+                    v2[k * dim + j].to_bits() == want[j].to_bits(),
+                    "run-entry second-call",
+                    "second NUTSChain::run({m2},{d2}): row {k} coord {j} = {}, but the state {t} transitions after the call was {}",
+                    v2[k * dim + j],
+                    want[j]
+                );
+            }
+        }
+        let (m_now, ..) = ch.verif_state();
+        ensure!(m_now == n2 + c.d - 1 + m2 + d2 - 1, "run-transition-count second-call", "NUTS counter m = {m_now} after two runs, expected {}", n2 + c.d - 1 + m2 + d2 - 1);
+        let pos2 = to_vec(&ch.position);
+        for j in 0..dim {
+            ensure!(pos2[j].to_bits() == v2[(m2 - 1) * dim + j].to_bits(), "run-final-state", "NUTS chain is left at a state different from the last returned row (second call)");
+        }
+        cov.class("second-run-on-the-same-chain");
     }
     // prefix consistency in n_collect
     if n1 < n2 {
